@@ -50,8 +50,10 @@ def gen_plan(seed, tier):
     p = params_for(name, r, D)
     if p is not None:
       break
-  if unknown and p.get("n_constraints", 1) is None:
+  if unknown and p.get("n_constraints", 1) is None and r.random() < 0.5:
     p["n_constraints"] = r.choice([10, 25, 60])
+  if r.random() < 0.3:
+    desc["dups"] = r.randint(1, 6)        # identical rows at different indices
   if name == "LSML_Supervised" and r.random() < 0.3:
     nc = p.get("n_constraints") or 20 * desc["classes"] ** 2
     p["weights"] = None   # placeholder: weights need the realised constraint count
@@ -62,7 +64,38 @@ def gen_plan(seed, tier):
   return plan
 
 
-def derive_and_fit(name, params, X, y, basis_obs=None):
+class NConstraintsObserver(object):
+  """Records the n_constraints the supervised estimator asks the Constraints
+  helper for (the default rule with unknown labels present is not pinned down
+  by the documentation, so the reference takes the observed value)."""
+
+  def __init__(self):
+    self.seen = []
+    self.missing = False
+
+  def __enter__(self):
+    import metric_learn.constraints as mc
+    self.cls = getattr(mc, "Constraints", None)
+    if self.cls is None or not hasattr(self.cls, "positive_negative_pairs"):
+      self.missing = True
+      return self
+    orig = self.cls.positive_negative_pairs
+    obs = self
+
+    def wrapped(self_, n_constraints=None, *a, **k):
+      obs.seen.append(n_constraints)
+      return orig(self_, n_constraints, *a, **k)
+    self.orig = orig
+    self.cls.positive_negative_pairs = wrapped
+    return self
+
+  def __exit__(self, *exc):
+    if not self.missing:
+      self.cls.positive_negative_pairs = self.orig
+    return False
+
+
+def derive_and_fit(name, params, X, y, basis_obs=None, nc_obs=None):
   """Base learner fitted on what the Constraints helper derives from y."""
   import metric_learn as ml
   from metric_learn.constraints import Constraints, wrap_pairs
@@ -74,7 +107,7 @@ def derive_and_fit(name, params, X, y, basis_obs=None):
   if base_name in ("ITML", "MMC", "SDML"):
     nc = params.get("n_constraints")
     if nc is None:
-      nc = 20 * len(np.unique(y)) ** 2
+      nc = nc_obs if nc_obs is not None else 20 * len(np.unique(y)) ** 2
     pos_neg = C.positive_negative_pairs(nc, random_state=seed)
     pairs, yp = wrap_pairs(X, pos_neg)
     used = np.concatenate([np.asarray(a).ravel() for a in pos_neg])
@@ -83,7 +116,7 @@ def derive_and_fit(name, params, X, y, basis_obs=None):
   elif base_name == "LSML":
     nc = params.get("n_constraints")
     if nc is None:
-      nc = 20 * len(np.unique(y)) ** 2
+      nc = nc_obs if nc_obs is not None else 20 * len(np.unique(y)) ** 2
     pos_neg = C.positive_negative_pairs(nc, same_length=True, random_state=seed)
     used = np.concatenate([np.asarray(a).ravel() for a in pos_neg])
     quads = X[np.column_stack(pos_neg)]
@@ -165,7 +198,7 @@ def run_plan(plan):
         pass
       cov["with_history"] += 1
     world.perturb_ambient(plan["ambient"], 3)
-    with world.observed() as wl, BasisObserver() as bo:
+    with world.observed() as wl, BasisObserver() as bo, NConstraintsObserver() as no:
       try:
         S.fit(X.copy(), y.copy())
         so = "ok"
@@ -176,9 +209,14 @@ def run_plan(plan):
     world.perturb_ambient(plan["ambient"] * 7 + 13, 5)
     if name == "SCML_Supervised" and isinstance(params.get("basis"), str) and bo.missing:
       raise Inconclusive("seam_missing_components_builder")
+    nc_obs = no.seen[0] if (no.seen and isinstance(no.seen[0], (int, np.integer))) else None
+    if params.get("n_constraints", 1) is None and plan["unknown"] and nc_obs is None and \
+        not name.startswith(("RCA", "SCML")):
+      raise Inconclusive("default_n_constraints_not_observable")
     with world.observed():
       try:
-        B, used = derive_and_fit(name, params, X.copy(), y.copy(), basis_obs=bo.basis)
+        B, used = derive_and_fit(name, params, X.copy(), y.copy(), basis_obs=bo.basis,
+                                 nc_obs=nc_obs)
         bo_ = "ok"
       except Exception as e:
         bo_, be = "exc:" + type(e).__name__, e
